@@ -17,6 +17,7 @@ import (
 	"errors"
 	"fmt"
 	"io"
+	"regexp"
 	"strconv"
 	"strings"
 	"time"
@@ -51,6 +52,10 @@ type reqCfg struct {
 	NS       string `json:"ns"`   // "" jabber:client jabber:server
 	Typ      string `json:"typ"`
 	SendFail bool   `json:"sendfail,omitempty"`
+	// IDForm: the shape of the request's id: "" a caller-chosen id (ID), "none" no
+	// id attribute, "empty" id="", "qualified" only ext:id=ID in a foreign name space
+	IDForm string `json:"idform,omitempty"`
+	Idx    int    `json:"-"` // number of the call (set when it is started)
 }
 
 type peerSt struct {
@@ -61,6 +66,9 @@ type peerSt struct {
 	// ones: ext:id / ext:type. They are not the stanza's id and type.
 	ExtID  string `json:"extid,omitempty"`
 	ExtTyp string `json:"exttyp,omitempty"`
+	// For: the element answers call *For: its id is the id that call has on the
+	// wire (resolved when the element is sent; generated ids differ between runs)
+	For *int `json:"for,omitempty"`
 }
 
 // normalise: EncodeIQ/EncodeMessage/EncodePresence marshal a struct whose
@@ -74,6 +82,33 @@ func (c *reqCfg) normalise() {
 	if !canSendFail(c.Entry) {
 		c.SendFail = false
 	}
+	// what the API shape can express
+	if c.IDForm != "" {
+		switch c.Entry {
+		case "SendIQ", "SendMessage", "SendPresence", "UnmarshalIQ", "IterIQ":
+			// token reader: every shape
+		case "EncodeIQ", "EncodePresence":
+			c.IDForm = "empty" // the marshaled struct has id=""
+		default:
+			c.IDForm = "none" // a stanza value with an empty ID has no id attribute
+		}
+	}
+}
+
+// startElement builds the request's start element by hand for the id shapes a
+// stanza value cannot express.
+func (c reqCfg) startElement() xml.StartElement {
+	st := xml.StartElement{Name: xml.Name{Space: c.NS, Local: c.Kind}}
+	switch c.IDForm {
+	case "empty":
+		st.Attr = append(st.Attr, xml.Attr{Name: xml.Name{Local: "id"}, Value: ""})
+	case "qualified":
+		st.Attr = append(st.Attr, xml.Attr{Name: xml.Name{Space: "urn:c06:ext", Local: "id"}, Value: c.ID})
+	}
+	if c.Typ != "" {
+		st.Attr = append(st.Attr, xml.Attr{Name: xml.Name{Local: "type"}, Value: c.Typ})
+	}
+	return st
 }
 
 func (p peerSt) isResp() bool { return p.Typ == "result" || p.Typ == "error" }
@@ -103,6 +138,9 @@ type callResult struct {
 
 type rstate struct {
 	cfg      reqCfg
+	key      string // the id the call is registered under, as far as the harness knows: the id on the wire
+	wireID   string
+	matched  bool // a reply carrying the wire id was matched to the call
 	a        *actor
 	pos      string // registered senderr selbefore inselect received ctxdone ret
 	canc     bool
@@ -119,6 +157,7 @@ func (failingReader) Token() (xml.Token, error) { return nil, errors.New("c06: p
 
 type payloadQ struct {
 	XMLName xml.Name `xml:"urn:c06 q"`
+	C       int      `xml:"c,attr"` // the number of the call: how the harness finds the request on the wire
 }
 
 type markerM struct {
@@ -195,33 +234,45 @@ func classifyErr(err error) (string, int) {
 
 func doCall(s *xmpp.Session, ctx context.Context, c reqCfg) (out callResult) {
 	out.marker = -1
-	var payload xml.TokenReader = xmlstream.Wrap(nil, xml.StartElement{Name: xml.Name{Space: nsC06, Local: "q"}})
+	var payload xml.TokenReader = xmlstream.Wrap(nil, xml.StartElement{Name: xml.Name{Space: nsC06, Local: "q"},
+		Attr: []xml.Attr{{Name: xml.Name{Local: "c"}, Value: strconv.Itoa(c.Idx)}}})
 	if c.SendFail {
 		payload = failingReader{}
 	}
 	name := xml.Name{Space: c.NS, Local: c.Kind}
-	iq := stanza.IQ{XMLName: name, ID: c.ID, Type: stanza.IQType(c.Typ)}
-	msg := stanza.Message{XMLName: name, ID: c.ID, Type: stanza.MessageType(c.Typ)}
-	pres := stanza.Presence{XMLName: name, ID: c.ID, Type: stanza.PresenceType(c.Typ)}
+	id := c.ID
+	if c.IDForm != "" {
+		id = ""
+	}
+	iq := stanza.IQ{XMLName: name, ID: id, Type: stanza.IQType(c.Typ)}
+	msg := stanza.Message{XMLName: name, ID: id, Type: stanza.MessageType(c.Typ)}
+	pres := stanza.Presence{XMLName: name, ID: id, Type: stanza.PresenceType(c.Typ)}
+	// the whole element as a token reader, for the methods that take one
+	whole := func(std xml.TokenReader) xml.TokenReader {
+		if c.IDForm == "" {
+			return std
+		}
+		return xmlstream.Wrap(payload, c.startElement())
+	}
 	var resp xmlstream.TokenReadCloser
 	var err error
 	switch c.Entry {
 	case "SendIQ":
-		resp, err = s.SendIQ(ctx, iq.Wrap(payload))
+		resp, err = s.SendIQ(ctx, whole(iq.Wrap(payload)))
 	case "SendIQElement":
 		resp, err = s.SendIQElement(ctx, payload, iq)
 	case "EncodeIQ":
 		resp, err = s.EncodeIQ(ctx, struct {
 			stanza.IQ
 			Q payloadQ
-		}{IQ: iq})
+		}{IQ: iq, Q: payloadQ{C: c.Idx}})
 	case "EncodeIQElement":
-		resp, err = s.EncodeIQElement(ctx, payloadQ{}, iq)
+		resp, err = s.EncodeIQElement(ctx, payloadQ{C: c.Idx}, iq)
 	case "UnmarshalIQ", "UnmarshalIQElement":
 		var v markerM
 		v.N = -1
 		if c.Entry == "UnmarshalIQ" {
-			err = s.UnmarshalIQ(ctx, iq.Wrap(payload), &v)
+			err = s.UnmarshalIQ(ctx, whole(iq.Wrap(payload)), &v)
 		} else {
 			err = s.UnmarshalIQElement(ctx, payload, iq, &v)
 		}
@@ -236,7 +287,7 @@ func doCall(s *xmpp.Session, ctx context.Context, c reqCfg) (out callResult) {
 		var it *xmlstream.Iter
 		var st *xml.StartElement
 		if c.Entry == "IterIQ" {
-			it, st, err = s.IterIQ(ctx, iq.Wrap(payload))
+			it, st, err = s.IterIQ(ctx, whole(iq.Wrap(payload)))
 		} else {
 			it, st, err = s.IterIQElement(ctx, payload, iq)
 		}
@@ -256,27 +307,27 @@ func doCall(s *xmpp.Session, ctx context.Context, c reqCfg) (out callResult) {
 		out.closer = it
 		return out
 	case "SendMessage":
-		resp, err = s.SendMessage(ctx, msg.Wrap(payload))
+		resp, err = s.SendMessage(ctx, whole(msg.Wrap(payload)))
 	case "SendMessageElement":
 		resp, err = s.SendMessageElement(ctx, payload, msg)
 	case "EncodeMessage":
 		resp, err = s.EncodeMessage(ctx, struct {
 			stanza.Message
 			Q payloadQ
-		}{Message: msg})
+		}{Message: msg, Q: payloadQ{C: c.Idx}})
 	case "EncodeMessageElement":
-		resp, err = s.EncodeMessageElement(ctx, payloadQ{}, msg)
+		resp, err = s.EncodeMessageElement(ctx, payloadQ{C: c.Idx}, msg)
 	case "SendPresence":
-		resp, err = s.SendPresence(ctx, pres.Wrap(payload))
+		resp, err = s.SendPresence(ctx, whole(pres.Wrap(payload)))
 	case "SendPresenceElement":
 		resp, err = s.SendPresenceElement(ctx, payload, pres)
 	case "EncodePresence":
 		resp, err = s.EncodePresence(ctx, struct {
 			stanza.Presence
 			Q payloadQ
-		}{Presence: pres})
+		}{Presence: pres, Q: payloadQ{C: c.Idx}})
 	case "EncodePresenceElement":
-		resp, err = s.EncodePresenceElement(ctx, payloadQ{}, pres)
+		resp, err = s.EncodePresenceElement(ctx, payloadQ{C: c.Idx}, pres)
 	default:
 		panic("unknown entry " + c.Entry)
 	}
@@ -503,7 +554,7 @@ func (x *coreRun) entryCtxDone(i int) bool {
 func (x *coreRun) callReturned(r *rstate, i int) {
 	// the goroutine posted "ret": its result is visible now
 	r.pos = "ret"
-	delete(x.table, r.cfg.ID) // the deferred delete is by id, whoever registered it
+	delete(x.table, r.key) // the deferred delete is by id, whoever registered it
 	x.label("LDereg %d%%nat", i)
 	if r.res.panic != "" {
 		x.fail("C06/"+group(r.cfg.Entry)+"/panic", "the call panicked: "+r.res.panic)
@@ -644,6 +695,7 @@ func (x *coreRun) do(a action) {
 	case "start":
 		i := len(x.reqs)
 		a.Cfg.normalise()
+		a.Cfg.Idx = i
 		r := &rstate{cfg: *a.Cfg, a: newActor(fmt.Sprintf("call%d", i)), closeCmd: make(chan struct{})}
 		r.ctx, r.cancel = context.WithCancel(context.Background())
 		x.reqs = append(x.reqs, r)
@@ -669,8 +721,15 @@ func (x *coreRun) do(a action) {
 			return
 		}
 		r.pos = "registered"
-		x.table[r.cfg.ID] = i
-		x.label("LStart %d%%N %s", x.idNum(r.cfg.ID), coqName(r.cfg.NS, r.cfg.Kind))
+		r.key = r.cfg.ID
+		if r.cfg.IDForm != "" {
+			r.key = fmt.Sprintf("~gen%d", i) // generated by the library: known once it is on the wire
+			x.classes["idform-"+r.cfg.IDForm] = true
+		}
+		if r.cfg.IDForm == "" {
+			x.table[r.key] = i // a generated id enters the mirror when it is seen on the wire
+		}
+		x.label("LStart %d%%N %s", x.idNum(r.key), coqName(r.cfg.NS, r.cfg.Kind))
 	case "go":
 		r := x.reqs[a.I]
 		from := r.pos
@@ -691,6 +750,7 @@ func (x *coreRun) do(a action) {
 			} else {
 				r.pos = "selbefore"
 				x.label("LSendOk %d%%nat", a.I)
+				x.sawOnWire(r, a.I)
 			}
 		case "selbefore":
 			r.pos = "inselect"
@@ -715,6 +775,12 @@ func (x *coreRun) do(a action) {
 		r.closed = true
 		x.label("LClose %d%%nat", a.I)
 	case "peer":
+		if a.St.For != nil && *a.St.For >= 0 && *a.St.For < len(x.reqs) {
+			a.St.ID = x.reqs[*a.St.For].key
+			if strings.HasPrefix(a.St.ID, "~gen") {
+				a.St.ID = fmt.Sprintf("unsent%d", *a.St.For) // that call's id was never on the wire: nobody can answer it
+			}
+		}
 		n := len(x.arrivals)
 		x.arrivals = append(x.arrivals, *a.St)
 		if err := x.p.Send(stanzaBytes(*a.St, n)); err != nil {
@@ -760,8 +826,17 @@ func (x *coreRun) do(a action) {
 				x.spos = "offerbefore"
 				if x.offerTo < 0 {
 					x.fail("C06/serve/offer-without-entry", "serve offers a reply although no call is registered for its id")
+				} else {
+					x.reqs[x.offerTo].matched = true
 				}
 			} else {
+				if i := x.offerTo; i >= 0 && x.curSt >= 0 {
+					r, st := x.reqs[i], x.arrivals[x.curSt]
+					if st.Kind == r.cfg.Kind && (r.cfg.NS == "" || r.cfg.NS == "jabber:client") {
+						x.fail("C06/serve/reply-not-matched", fmt.Sprintf("a %s reply carrying id %q — the id call %d (%s) has on the wire — was not matched to that call but passed to the handler: the call is registered under another id and will end with its context error instead of its reply", st.Kind, st.ID, i, r.cfg.Entry))
+						return
+					}
+				}
 				x.spos = "handlerbefore"
 				x.offerTo = -1
 			}
@@ -792,6 +867,53 @@ func (x *coreRun) do(a action) {
 	case "snap":
 	}
 	x.settle()
+}
+
+var wireAttrID = regexp.MustCompile(`(?:^|\s)id=(?:"([^"]*)"|'([^']*)')`)
+
+// sawOnWire reads the id of the request the call has written (found by the
+// call's number in its payload) and re-keys the harness's mirror of the table
+// with it: the id the peer sees is the id a reply is matched on.
+func (x *coreRun) sawOnWire(r *rstate, i int) {
+	re := regexp.MustCompile(`<(?:iq|message|presence)((?:\s+[A-Za-z_:][-A-Za-z0-9_:.]*=(?:"[^"]*"|'[^']*'))*)\s*>\s*<q xmlns="` + nsC06 + `" c="` + strconv.Itoa(i) + `"`)
+	var m [][]byte
+	deadline := time.Now().Add(watchdog)
+	for m == nil {
+		if m = re.FindSubmatch(x.p.Written()); m == nil {
+			if time.Now().After(deadline) {
+				x.fail("C06/"+group(r.cfg.Entry)+"/request-not-on-wire", "the call reached its wait but its request is not on the wire")
+				return
+			}
+			time.Sleep(100 * time.Microsecond)
+		}
+	}
+	id := ""
+	if am := wireAttrID.FindSubmatch(m[1]); am != nil {
+		id = string(am[1]) + string(am[2])
+	}
+	r.wireID = id
+	g := group(r.cfg.Entry)
+	switch {
+	case id == "":
+		x.fail("C06/"+g+"/empty-id-on-wire", fmt.Sprintf("call %d (%s) waits for a reply but its request went out without an id", i, r.cfg.Entry))
+		return
+	case r.cfg.IDForm == "" && id != r.cfg.ID:
+		x.fail("C06/"+g+"/id-not-kept", fmt.Sprintf("call %d (%s) chose id %q but %q is on the wire", i, r.cfg.Entry, r.cfg.ID, id))
+		return
+	}
+	if r.cfg.IDForm != "" {
+		// the generated id is known now: re-key the mirror (the model label keeps its number)
+		if _, taken := x.table[id]; taken {
+			x.fail("C06/"+g+"/generated-id-collides", "a generated id equals an id that is already pending")
+			return
+		}
+		if j, ok := x.table[r.key]; ok && j == i {
+			delete(x.table, r.key)
+		}
+		x.ids[id] = x.idNum(r.key)
+		r.key = id
+		x.table[id] = i
+	}
 }
 
 // ---- observables and oracle ----
@@ -869,7 +991,7 @@ func (x *coreRun) oracle(final bool) {
 				continue
 			}
 			st := x.arrivals[m]
-			if st.ID != r.cfg.ID || st.Kind != r.cfg.Kind || !st.isResp() {
+			if st.ID != r.key || st.Kind != r.cfg.Kind || !st.isResp() {
 				x.fail("C06/"+g+"/foreign-reply", fmt.Sprintf("call %d (%s id=%s) got element %d (%s id=%s type=%s)", i, r.cfg.Kind, r.cfg.ID, m, st.Kind, st.ID, st.Typ))
 			}
 			if j, dup := delivered[m]; dup {
@@ -911,7 +1033,7 @@ func (x *coreRun) oracle(final bool) {
 			// a reply may be drained only when a call for its id gave up
 			ok := false
 			for _, r := range x.reqs {
-				if r.cfg.ID == st.ID && (r.canc || r.res.class == "senderr") {
+				if r.key == st.ID && (r.canc || r.res.class == "senderr") {
 					ok = true
 				}
 			}
